@@ -47,7 +47,7 @@ func TestBinaryFlushSurvivesConfiguration(t *testing.T) {
 		}
 		defer b.Stop()
 		if !b.AwaitLine("warmup:1|c", "warmup", 30*time.Second) {
-			if b.Exited() {
+			if b.Exited() && !b.BindFailed() {
 				vt.Fail(t, "C04:process-died", "%s exited on its first flush; output: %s", b.Describe(), b.Tail(30))
 			}
 			ev.C().Excluded("binary-not-serving", 1)
